@@ -295,7 +295,16 @@ var rR20b = RuleRef{Name: "R20b", Doc: "an emptied container ceases to exist: af
 		deferKeys := func(d *ssa.Defer) []string {
 			mc, ok := d.Call.Value.(*ssa.MakeClosure)
 			if !ok {
-				return nil
+				// a named delete-if-empty helper: defer deleteIfEmpty(m, key, list)
+				var ks []string
+				if cf := d.Call.StaticCallee(); cf != nil {
+					for _, pi := range c.deletesKeyParams(cf) {
+						if pi < len(d.Call.Args) {
+							ks = append(ks, canon(d.Call.Args[pi]))
+						}
+					}
+				}
+				return ks
 			}
 			sub := closureKeySub(mc)
 			var ks []string
@@ -343,6 +352,13 @@ var rR20b = RuleRef{Name: "R20b", Doc: "an emptied container ceases to exist: af
 			if x, ok := in.(*ssa.Call); ok {
 				if a := c.keyspaceAccess(x); a != nil && a.Map == "db" && a.Method == "Delete" {
 					killKey(s, canon(a.Key))
+				}
+				if cf := callee(x); cf != nil && firstParty(cf) {
+					for _, pi := range c.deletesKeyParams(cf) {
+						if pi < len(x.Call.Args) {
+							killKey(s, canon(x.Call.Args[pi]))
+						}
+					}
 				}
 			}
 			// a growing mutator (insert/add/push) on the same container leaves it non-empty
@@ -640,6 +656,13 @@ var rR20d = RuleRef{Name: "R20d", Doc: "the *STORE set-algebra executors replace
 				if a := c.keyspaceAccess(ci); a != nil && a.Map == "db" && (a.Method == "Set" || a.Method == "Delete") {
 					s["DESTW|"+canon(a.Key)] = true
 				}
+				if cf := callee(ci); cf != nil && firstParty(cf) {
+					for _, pi := range c.writesKeyParams(cf) {
+						if pi < len(ci.Call.Args) {
+							s["DESTW|"+canon(ci.Call.Args[pi])] = true
+						}
+					}
+				}
 			}
 			return s, false
 		}
@@ -705,4 +728,104 @@ func inSubscriptionBranch(in ssa.Instruction) bool {
 		}
 	}
 	return false
+}
+
+// deletesKeyParams: parameters of fn that are used as the key of a db.Delete inside fn (a delete-if-empty helper).
+func (c *C) deletesKeyParams(fn *ssa.Function) []int {
+	if fn == nil || fn.Blocks == nil || pkgRel(fn) != "memdb" || fn.Parent() != nil {
+		return nil
+	}
+	if _, isExec := c.Facts.ExecNames[fn]; isExec {
+		return nil
+	}
+	var out []int
+	for _, b := range fn.Blocks {
+		for _, in := range b.Instrs {
+			if ci, ok := in.(ssa.CallInstruction); ok {
+				if a := c.keyspaceAccess(ci); a != nil && a.Map == "db" && a.Method == "Delete" {
+					if pi := paramIndex(fn, canon(a.Key)); pi >= 0 {
+						out = append(out, pi)
+					}
+				}
+			}
+		}
+	}
+	return out
+}
+
+// writesKeyParams: parameters of fn that are written (db.Set) or deleted (db.Delete) on every path to every
+// return of a non-error reply (the shared "store the result under the destination" tail of the *STORE commands).
+func (c *C) writesKeyParams(fn *ssa.Function) []int {
+	if fn == nil || fn.Blocks == nil || pkgRel(fn) != "memdb" || fn.Parent() != nil {
+		return nil
+	}
+	if _, isExec := c.Facts.ExecNames[fn]; isExec {
+		return nil
+	}
+	if c.wkMemo == nil {
+		c.wkMemo = map[*ssa.Function][]int{}
+	}
+	if r, ok := c.wkMemo[fn]; ok {
+		return r
+	}
+	c.wkMemo[fn] = nil
+	tr := func(in ssa.Instruction, s Set) (Set, bool) {
+		if noReturnCall(in) {
+			return nil, true
+		}
+		if ci, ok := in.(*ssa.Call); ok {
+			if a := c.keyspaceAccess(ci); a != nil && a.Map == "db" && (a.Method == "Set" || a.Method == "Delete") {
+				s["DESTW|"+canon(a.Key)] = true
+			}
+		}
+		return s, false
+	}
+	must := &Flow{Fn: fn, Must: true, Entry: Set{}, Transfer: tr}
+	must.Run()
+	var cand map[int]bool
+	for _, b := range fn.Blocks {
+		if len(b.Instrs) == 0 {
+			continue
+		}
+		ret, ok := b.Instrs[len(b.Instrs)-1].(*ssa.Return)
+		if !ok {
+			continue
+		}
+		s, live := must.Before(ret)
+		if !live {
+			continue
+		}
+		success := false
+		for _, v := range returnedValues(ret) {
+			if !isErrorReply(v) {
+				success = true
+			}
+		}
+		if !success {
+			continue
+		}
+		here := map[int]bool{}
+		for f := range s {
+			if strings.HasPrefix(f, "DESTW|") {
+				if pi := paramIndex(fn, f[6:]); pi >= 0 {
+					here[pi] = true
+				}
+			}
+		}
+		if cand == nil {
+			cand = here
+		} else {
+			for k := range cand {
+				if !here[k] {
+					delete(cand, k)
+				}
+			}
+		}
+	}
+	var out []int
+	for k := range cand {
+		out = append(out, k)
+	}
+	c.wkMemo[fn] = out
+	return out
 }
